@@ -11,26 +11,26 @@ theorem inv_rt (s s' : State) (e : RtEv) (hfa : s.cfg.flushArms = true) (h : Inv
   obtain ⟨a1, a2, a3, a4, a5, a6, a7, a8, a9⟩ := g1_rt s s' e h hs
   obtain ⟨b1, b2, b3, b4⟩ := g2_rt s s' e h hs
   obtain ⟨c1, c2, c3, c4⟩ := g3_rt s s' e h hs
-  obtain ⟨d1, d2, d3, d4, d5, d6, d7, d8, d9, d10, d11, d12, d13⟩ := g4_rt s s' e hfa h hs
+  obtain ⟨d1, d2, d3, d4, d5, d6, d7, d8, d9, d10, d11, d12, d13, d14⟩ := g4_rt s s' e hfa h hs
   obtain ⟨e1, e2⟩ := g5_rt s s' e h hs
   exact { flagLe := a1, noUflow := a2, pend := a3, hotLive := a4, compl := a5, hotNodup := a6, notPushed := a7,
           zeroHot := a8, extOnly := a9, sched := b1, seqLe := b2, unserved := b3, wokenSched := b4,
           covSync := c1, mseqLe := c2, covMainW := c3, covMain := c4,
           kq := d1, armW := d2, armS := d3, armXW := d4, armXS := d5, sleepFlag := d6, sig := d7, xsig := d8, pn := d9,
-          iourPc := d10, pnotPoll := d11, casPoll := d12, lcasPoll := d13, nxtHead := e1, nxtNe := e2 }
+          iourPc := d10, pnotPoll := d11, casPoll := d12, lcasPoll := d13, cqLive := d14, nxtHead := e1, nxtNe := e2 }
 
 theorem inv_w (s s' : State) (w : Nat) (hw : w < s.cfg.nw) (hfa : s.cfg.flushArms = true) (hrw : s.cfg.rewake = true)
     (h : Inv s) (hs : wStep s w = some s') : Inv s' := by
   obtain ⟨a1, a2, a3, a4, a5, a6, a7, a8, a9⟩ := g1_w s s' w hw h hs
   obtain ⟨b1, b2, b3, b4⟩ := g2_w s s' w hw h hs
   obtain ⟨c1, c2, c3, c4⟩ := g3_w s s' w hw hrw h hs
-  obtain ⟨d1, d2, d3, d4, d5, d6, d7, d8, d9, d10, d11, d12, d13⟩ := g4_w s s' w hw hfa h hs
+  obtain ⟨d1, d2, d3, d4, d5, d6, d7, d8, d9, d10, d11, d12, d13, d14⟩ := g4_w s s' w hw hfa h hs
   obtain ⟨e1, e2⟩ := g5_w s s' w h hs
   exact { flagLe := a1, noUflow := a2, pend := a3, hotLive := a4, compl := a5, hotNodup := a6, notPushed := a7,
           zeroHot := a8, extOnly := a9, sched := b1, seqLe := b2, unserved := b3, wokenSched := b4,
           covSync := c1, mseqLe := c2, covMainW := c3, covMain := c4,
           kq := d1, armW := d2, armS := d3, armXW := d4, armXS := d5, sleepFlag := d6, sig := d7, xsig := d8, pn := d9,
-          iourPc := d10, pnotPoll := d11, casPoll := d12, lcasPoll := d13, nxtHead := e1, nxtNe := e2 }
+          iourPc := d10, pnotPoll := d11, casPoll := d12, lcasPoll := d13, cqLive := d14, nxtHead := e1, nxtNe := e2 }
 
 set_option maxRecDepth 4000 in
 set_option maxHeartbeats 4000000 in
@@ -38,7 +38,7 @@ theorem inv_wStart (s : State) (w : Nat) (k : Kind) (hw : w < s.cfg.nw) (hidle :
     Inv (setWk s w { pc := match k with | .main => .dwake | .task _ => .sched,
                      kind := k, notified := false, pushed := false, seq0 := 0 }) := by
   have hh := h
-  obtain ⟨a1, a2, a3, a4, a5, a6, a7, a8, a9, b1, b2, b3, b4, c1, c2, c3, c4, d1, d2, d3, d4, d5, d6, d7, d8, d9, d10, d11, d12, d13, e1, e2⟩ := hh
+  obtain ⟨a1, a2, a3, a4, a5, a6, a7, a8, a9, b1, b2, b3, b4, c1, c2, c3, c4, d1, d2, d3, d4, d5, d6, d7, d8, d9, d10, d11, d12, d13, d14, e1, e2⟩ := hh
   simp only [cnt, cntUpTo_split _ _ _ _ hw] at *
   cases k <;> constructor
   all_goals (try (simp only [setWk, cnt, cntUpTo_split _ _ _ _ hw, cntExcept_upd, upd_same, upd, resvP, holdsP, aboutP, inflightP, writeP, isTaskKind, prePush, inCall, cov, covM, covOf, fdReadable] at *; grind))
@@ -47,7 +47,7 @@ set_option maxRecDepth 4000 in
 set_option maxHeartbeats 4000000 in
 theorem inv_cancel (s : State) (t : Nat) (h : Inv s) :
     Inv { s with word := upd s.word t (TaskState.setCancelled (s.word t)) } := by
-  obtain ⟨a1, a2, a3, a4, a5, a6, a7, a8, a9, b1, b2, b3, b4, c1, c2, c3, c4, d1, d2, d3, d4, d5, d6, d7, d8, d9, d10, d11, d12, d13, e1, e2⟩ := h
+  obtain ⟨a1, a2, a3, a4, a5, a6, a7, a8, a9, b1, b2, b3, b4, c1, c2, c3, c4, d1, d2, d3, d4, d5, d6, d7, d8, d9, d10, d11, d12, d13, d14, e1, e2⟩ := h
   constructor
   all_goals (first | assumption | (simp only [cnt, upd, cov, covM, fdReadable] at *; grind [sched_cancel, canc_cancel, compl_cancel]))
 
